@@ -535,7 +535,7 @@ def runs(ctx, acc, dd):
         nt, classes = check_run(dd, case, acc, os.path.join(ctx.workdir, f'run{n[0] % 3}'))
         acc.case(case, nontrivial=False, classes=classes)
 
-    runner.hyp_run(ctx, run_cases(), body, ctx.share(320 if ctx.quick else 8000), salt=41)
+    runner.hyp_run(ctx, run_cases(), body, ctx.share(320 if ctx.quick else 3000), salt=41)
 
 
 def shard(ctx, acc):
